@@ -571,8 +571,6 @@ Require Verif.Tie.Vers.Printers.
 Require Verif.Tie.Vers.Pypi.
 Require Verif.Tie.Vers.Texts.
 Require Verif.Tie.Vers.Valid.
-Require Verif.Tie.E2E.VersDeb.
-Require Verif.Tie.E2E.VersRpm.
 Definition C04_tie_alpine_compareInt := @Verif.Tie.Alpine.tie_alpine_compareInt.
 Definition C04_tie_alpine_compareLetters := @Verif.Tie.Alpine.tie_alpine_compareLetters.
 Definition C04_tie_alpine_VersionRange_String := @Verif.Tie.AlpineRange.tie_alpine_VersionRange_String.
@@ -673,12 +671,6 @@ Definition C04_tie_valid_tie := @Verif.Tie.Vers.Valid.valid_tie.
 Definition C04_tie_valid_finished := @Verif.Tie.Vers.Valid.valid_finished.
 Definition C04_tie_scheme_tie := @Verif.Tie.Vers.Valid.scheme_tie.
 Definition C04_tie_scheme_finished := @Verif.Tie.Vers.Valid.scheme_finished.
-Definition C04_tie_debian_contains_e2e := @Verif.Tie.E2E.VersDeb.debian_contains_e2e.
-Definition C04_tie_debianContains_e2e := @Verif.Tie.E2E.VersDeb.debianContains_e2e.
-Definition C04_tie_vers_deb_e2e := @Verif.Tie.E2E.VersDeb.vers_deb_e2e.
-Definition C04_tie_rpm_contains_e2e := @Verif.Tie.E2E.VersRpm.rpm_contains_e2e.
-Definition C04_tie_rpmContains_e2e := @Verif.Tie.E2E.VersRpm.rpmContains_e2e.
-Definition C04_tie_vers_rpm_e2e := @Verif.Tie.E2E.VersRpm.vers_rpm_e2e.
-Definition C04_ties_all := (C04_tie_Contains_no_panic, (C04_tie_Contains_tie, (C04_tie_alpine_VersionRange_Contains, (C04_tie_alpine_VersionRange_String, (C04_tie_alpine_compareInt, (C04_tie_alpine_compareLetters, (C04_tie_alpine_printer_tie, (C04_tie_alternatingIntervals_no_panic, (C04_tie_alternatingIntervals_tie, (C04_tie_alternatingIntervals_tie_finished, (C04_tie_alternatingIntervals_total, (C04_tie_cargo_caret, (C04_tie_cargo_compare, (C04_tie_cargo_compareInt, (C04_tie_cargo_printer_tie, (C04_tie_cargo_satisfiesConstraint, (C04_tie_cargo_tilde, (C04_tie_ccmp_le_total, (C04_tie_collect_tie, (C04_tie_constraintsIncludePrerelease_finished, (C04_tie_constraintsIncludePrerelease_tie, (C04_tie_containsPrereleaseMarkers_finished, (C04_tie_containsPrereleaseMarkers_tie, (C04_tie_contains_no_panic, (C04_tie_contains_tie, (C04_tie_debianContains_e2e, (C04_tie_debian_compare, (C04_tie_debian_contains, (C04_tie_debian_contains_e2e, (C04_tie_debian_printer_tie, (C04_tie_debian_satisfiesConstraint, (C04_tie_debian_satisfiesConstraint_model, (C04_tie_ensureVPrefix_tie, (C04_tie_ensures_finished, (C04_tie_gem_VersionRange_Contains, (C04_tie_gem_VersionRange_String, (C04_tie_gem_compareInt, (C04_tie_gem_compareSegments, (C04_tie_gem_printer_tie, (C04_tie_golang_VersionRange_Contains, (C04_tie_golang_VersionRange_String, (C04_tie_golang_Version_Compare, (C04_tie_golang_compareInt, (C04_tie_golang_printer_tie, (C04_tie_groupConstraintsIntoIntervals_no_panic, (C04_tie_groupConstraintsIntoIntervals_tie, (C04_tie_groupConstraintsIntoIntervals_tie_finished, (C04_tie_groupConstraintsIntoIntervals_total, (C04_tie_isPyPIPrerelease_tie, (C04_tie_maven_contains, (C04_tie_maven_printer_tie, (C04_tie_maven_satisfiesConstraint, (C04_tie_normalizeConstraints_no_panic, (C04_tie_normalizeConstraints_tie, (C04_tie_normalize_go_tie, (C04_tie_npm_compare, (C04_tie_npm_compareInt, (C04_tie_npm_printer_tie, (C04_tie_nuget_compare, (C04_tie_nuget_compareInt, (C04_tie_nuget_contains, (C04_tie_nuget_matches, (C04_tie_nuget_matches_model, (C04_tie_nuget_printer_tie, (C04_tie_parseConstraint_finished, (C04_tie_parseConstraint_tie, (C04_tie_parseConstraints_finished, (C04_tie_parseConstraints_normalize, (C04_tie_parseConstraints_tie, (C04_tie_printers_keys, (C04_tie_printers_len, (C04_tie_printers_len', (C04_tie_printers_match_style_table, (C04_tie_printers_on_model_interval, (C04_tie_printers_texts, (C04_tie_printers_texts_normalize, (C04_tie_pypiContains_tie, (C04_tie_pypi_VersionRange_Contains, (C04_tie_pypi_VersionRange_String, (C04_tie_pypi_Version_Compare, (C04_tie_pypi_compareDevReleases, (C04_tie_pypi_compareInt, (C04_tie_pypi_comparePostReleases, (C04_tie_pypi_comparePrereleases, (C04_tie_pypi_normalizePrereleaseType, (C04_tie_pypi_printer_tie, (C04_tie_rpmContains_e2e, (C04_tie_rpm_compare, (C04_tie_rpm_contains, (C04_tie_rpm_contains_e2e, (C04_tie_rpm_printer_tie, (C04_tie_rpm_satisfiesRPMConstraint, (C04_tie_rpm_satisfiesRPMConstraint_model, (C04_tie_scheme_finished, (C04_tie_scheme_tie, (C04_tie_semver_compare, (C04_tie_semver_compareInt, (C04_tie_semver_printer_tie, (C04_tie_shouldMergeConstraints_tie, (C04_tie_toRanges_no_panic, (C04_tie_toRanges_normalize, (C04_tie_toRanges_tie, (C04_tie_valid_finished, (C04_tie_valid_tie, (C04_tie_vers_deb_e2e, C04_tie_vers_rpm_e2e))))))))))))))))))))))))))))))))))))))))))))))))))))))))))))))))))))))))))))))))))))))))))))))))))))))))).
+Definition C04_ties_all := (C04_tie_Contains_no_panic, (C04_tie_Contains_tie, (C04_tie_alpine_VersionRange_Contains, (C04_tie_alpine_VersionRange_String, (C04_tie_alpine_compareInt, (C04_tie_alpine_compareLetters, (C04_tie_alpine_printer_tie, (C04_tie_alternatingIntervals_no_panic, (C04_tie_alternatingIntervals_tie, (C04_tie_alternatingIntervals_tie_finished, (C04_tie_alternatingIntervals_total, (C04_tie_cargo_caret, (C04_tie_cargo_compare, (C04_tie_cargo_compareInt, (C04_tie_cargo_printer_tie, (C04_tie_cargo_satisfiesConstraint, (C04_tie_cargo_tilde, (C04_tie_ccmp_le_total, (C04_tie_collect_tie, (C04_tie_constraintsIncludePrerelease_finished, (C04_tie_constraintsIncludePrerelease_tie, (C04_tie_containsPrereleaseMarkers_finished, (C04_tie_containsPrereleaseMarkers_tie, (C04_tie_contains_no_panic, (C04_tie_contains_tie, (C04_tie_debian_compare, (C04_tie_debian_contains, (C04_tie_debian_printer_tie, (C04_tie_debian_satisfiesConstraint, (C04_tie_debian_satisfiesConstraint_model, (C04_tie_ensureVPrefix_tie, (C04_tie_ensures_finished, (C04_tie_gem_VersionRange_Contains, (C04_tie_gem_VersionRange_String, (C04_tie_gem_compareInt, (C04_tie_gem_compareSegments, (C04_tie_gem_printer_tie, (C04_tie_golang_VersionRange_Contains, (C04_tie_golang_VersionRange_String, (C04_tie_golang_Version_Compare, (C04_tie_golang_compareInt, (C04_tie_golang_printer_tie, (C04_tie_groupConstraintsIntoIntervals_no_panic, (C04_tie_groupConstraintsIntoIntervals_tie, (C04_tie_groupConstraintsIntoIntervals_tie_finished, (C04_tie_groupConstraintsIntoIntervals_total, (C04_tie_isPyPIPrerelease_tie, (C04_tie_maven_contains, (C04_tie_maven_printer_tie, (C04_tie_maven_satisfiesConstraint, (C04_tie_normalizeConstraints_no_panic, (C04_tie_normalizeConstraints_tie, (C04_tie_normalize_go_tie, (C04_tie_npm_compare, (C04_tie_npm_compareInt, (C04_tie_npm_printer_tie, (C04_tie_nuget_compare, (C04_tie_nuget_compareInt, (C04_tie_nuget_contains, (C04_tie_nuget_matches, (C04_tie_nuget_matches_model, (C04_tie_nuget_printer_tie, (C04_tie_parseConstraint_finished, (C04_tie_parseConstraint_tie, (C04_tie_parseConstraints_finished, (C04_tie_parseConstraints_normalize, (C04_tie_parseConstraints_tie, (C04_tie_printers_keys, (C04_tie_printers_len, (C04_tie_printers_len', (C04_tie_printers_match_style_table, (C04_tie_printers_on_model_interval, (C04_tie_printers_texts, (C04_tie_printers_texts_normalize, (C04_tie_pypiContains_tie, (C04_tie_pypi_VersionRange_Contains, (C04_tie_pypi_VersionRange_String, (C04_tie_pypi_Version_Compare, (C04_tie_pypi_compareDevReleases, (C04_tie_pypi_compareInt, (C04_tie_pypi_comparePostReleases, (C04_tie_pypi_comparePrereleases, (C04_tie_pypi_normalizePrereleaseType, (C04_tie_pypi_printer_tie, (C04_tie_rpm_compare, (C04_tie_rpm_contains, (C04_tie_rpm_printer_tie, (C04_tie_rpm_satisfiesRPMConstraint, (C04_tie_rpm_satisfiesRPMConstraint_model, (C04_tie_scheme_finished, (C04_tie_scheme_tie, (C04_tie_semver_compare, (C04_tie_semver_compareInt, (C04_tie_semver_printer_tie, (C04_tie_shouldMergeConstraints_tie, (C04_tie_toRanges_no_panic, (C04_tie_toRanges_normalize, (C04_tie_toRanges_tie, (C04_tie_valid_finished, C04_tie_valid_tie))))))))))))))))))))))))))))))))))))))))))))))))))))))))))))))))))))))))))))))))))))))))))))))))))).
 Print Assumptions C04_ties_all.
 (* ====== ties to the source: END ====== *)
